@@ -32,8 +32,10 @@ def setup():
 @st.composite
 def case_strategy(draw):
     nx = draw(st.integers(5, 120))
-    lo = draw(st.sampled_from([0.0, -5.0, 3.5, 1000.0, -0.001]))
+    lo = draw(st.sampled_from([0.0, -5.0, 3.5, 1000.0, -0.001, 9000.0]))
     span = draw(st.sampled_from([1.0, 10.0, 0.01, 250.0]))
+    if lo == 9000.0:
+        span = 4.0          # wavelength-like abscissae: a large offset and (below) breakpoints much closer than |x| * float32 eps * 1e3
     fam = draw(st.sampled_from(['uniform', 'clustered', 'duplicates', 'grid']))
     if fam == 'grid':
         x = [lo + span * i / (nx - 1) for i in range(nx)]
@@ -75,15 +77,15 @@ def case_strategy(draw):
         if len(x) < 4:
             x = [lo + span * i / 5 for i in range(6)]
         kw['everyn'] = draw(st.integers(1, max(1, len(x) // 2)))
-    if opt != 'everyn':
-        order = draw(st.sampled_from(['sorted', 'shuffled']))
-        x = sorted(x) if order == 'sorted' else list(draw(st.permutations(x)))
+    order = draw(st.sampled_from(['sorted', 'shuffled']))
+    x = sorted(x) if order == 'sorted' else list(draw(st.permutations(x)))
     kw['bkspread'] = draw(st.sampled_from([1.0, 1.0, 0.5, 2.0, 1.3]))
     ne = draw(st.integers(1, 60))
     ev = []
     for _ in range(ne):
         ev.append([draw(st.sampled_from(['in', 'in', 'in', 'knot', 'end', 'out'])), 0.5 * (1 + draw(uf)), draw(st.integers(0, 40))])
-    return dict(x=x, nord=nord, opt=opt, kw=kw, ev=ev, coeff_seed=[draw(uf) for _ in range(8)], sort_eval=draw(st.sampled_from([False, False, True])))
+    return dict(x=x, nord=nord, opt=opt, kw=kw, ev=ev, coeff_seed=[draw(uf) for _ in range(8)], sort_eval=draw(st.sampled_from([False, False, True])),
+                ev_dtype=draw(st.sampled_from(['f8', 'f8', 'f4'])))
 
 
 def body(case):
@@ -129,7 +131,14 @@ def body(case):
     ev = np.array(ev, dtype='f8')
     if case['sort_eval']:
         ev = np.sort(ev)
-    y, m = call(b.value, ev.copy())
+    f4 = case.get('ev_dtype', 'f8') == 'f4'
+    if f4:
+        # evaluation points stored in single precision (the knots stay double): the reference is the spline at exactly those points
+        ev32 = ev.astype('f4')
+        ev = ev32.astype('f8')
+        y, m = call(b.value, ev32.copy())
+    else:
+        y, m = call(b.value, ev.copy())
     with judge('value'):
         y = np.asarray(y, dtype='f8')
         m = np.asarray(m)
@@ -142,7 +151,7 @@ def body(case):
             r1 = bslib.spline_value(t, coeff, nord, xi, 'right')
             r2 = bslib.spline_value(t, coeff, nord, xi, 'left')
             g = y[inside]
-            tolv = 1e-9 * (1 + np.abs(coeff).max())
+            tolv = (2e-5 if f4 else 1e-9) * (1 + np.abs(coeff).max())       # float32 points give float32 basis values (eps 1.2e-7, times order and cancellation)
             ok = (np.abs(g - r1) <= tolv) | (np.abs(g - r2) <= tolv)
             check(bool(np.all(np.isfinite(g))), 'value:non-finite', lambda: dict(ev=xi.tolist(), got=g.tolist()))
             check(bool(ok.all()), 'value-differs-from-cox-de-boor',
